@@ -237,7 +237,7 @@ theorem Tk_timedM {t : Timed} (h : Tk none none 1 c) (hw : HW c) (ht : t ∈ c.t
   obtain ⟨x, hx, hfx, _⟩ := h.mt t ht hf (by simp)
   have htx : tokP none x = true := by rw [tokP_none_iff, hfx]; rfl
   have hpx : (fun (h : Handler) => decide (h.fn ≠ .sys .features)) x = false := by simp [hfx]
-  have e := cnt_filter_lt hx htx hpx
+  have e := cnt_filter_lt (p := fun (h : Handler) => decide (h.fn ≠ .sys .features)) hx htx hpx
   have hle := h.le
   have hen : c.sm.enabled = false := by
     cases he : c.sm.enabled with
@@ -282,11 +282,24 @@ theorem TH_fireTimedOne {uid} (h : TH none c) : TH none (fireTimedOne c uid) := 
     dsimp only
     have h0 : TH none { c with timed := c.timed.map fun (x : Timed) => if x.uid = uid then { x with lastStamp := c.now } else x } :=
       ⟨Tk_rec3 h.1, HW_rec8 h.2⟩
-    generalize ({ c with timed := c.timed.map fun (x : Timed) => if x.uid = uid then { x with lastStamp := c.now } else x } : Conn) = c0 at h0
+    have ht0 : ∃ t0 ∈ ({ c with timed := c.timed.map fun (x : Timed) => if x.uid = uid then { x with lastStamp := c.now } else x } : Conn).timed,
+        t0.fn = t.fn ∧ t0.uid = uid := by
+      refine ⟨_, List.mem_map.2 ⟨t, hmem, rfl⟩, ?_, ?_⟩
+      · split <;> rfl
+      · split <;> exact huid
+    generalize ({ c with timed := c.timed.map fun (x : Timed) => if x.uid = uid then { x with lastStamp := c.now } else x } : Conn) = c0 at h0 ht0
     have hw1 : HW (runTimed c0 t.fn).1 := HW_runTimed h0.2
     cases hfn : t.fn
     case missingFeatures =>
-      sorry
+      obtain ⟨t0, hm0, hf0, hu0⟩ := ht0
+      rw [hfn] at hf0 hw1
+      obtain ⟨a0, ao⟩ := Tk_timedM h0.1 h0.2 hm0 hf0
+      have a1 := Tk_authTop a0 ao
+      unfold runTimed at hw1 ⊢
+      dsimp only at hw1 ⊢
+      rw [if_neg (by simp)]
+      rw [hu0] at a1
+      exact ⟨Tk_leaveT a1, HW_rec4 hw1⟩
     all_goals
       rw [hfn] at hw1
       unfold runTimed at hw1 ⊢
@@ -295,5 +308,179 @@ theorem TH_fireTimedOne {uid} (h : TH none c) : TH none (fireTimedOne c uid) := 
     case disconnectCleanup => rw [if_neg (by simp)]; exact ⟨Tk_rec1 (Tk_connDisconnect h0.1), HW_rec4 hw1⟩
     all_goals
       rw [if_neg (by simp)]; exact ⟨Tk_rec1 (Tk_xmppDisconnect h0.1), HW_rec4 hw1⟩
+
+theorem TH_fireTimed (h : TH none c) : TH none (fireTimed c) := by
+  unfold fireTimed
+  refine pred_ite (P := TH none) (fun _ => h) (fun _ => ?_)
+  dsimp only
+  refine pred_foldl (P := TH none) (fun c x hc => TH_fireTimedOne (uid := x) hc) _ ?_
+  exact ⟨Tk_rec2 h.1, HW_rec7 h.2⟩
+
+/-! ### one iteration of the event loop -/
+
+theorem TH_writeLoop (h : TH ut c) : TH ut (writeLoop c) := ⟨Tk_writeLoop h.1, HW_writeLoop h.2⟩
+theorem TH_connDisconnect (h : TH ut c) : TH ut (connDisconnect c) := ⟨Tk_connDisconnect h.1, HW_connDisconnect h.2⟩
+theorem TH_connEstablished (h : TH ut c) : TH ut (connEstablished c) :=
+  ⟨Tk_connEstablished h.1, HW_connEstablished h.2⟩
+theorem TH_rec1 (h : TH ut c) :
+    TH ut { c with resetParser := false, pst := if c.resetParser = true then PSt.fresh else c.pst } :=
+  ⟨Tk_rec7 h.1, h.2⟩
+theorem TH_rec2 (h : TH ut c) (_hs : c.state = .connecting) (hr : RP0 c) : TH ut { c with state := .connected } :=
+  ⟨{ h.1 with frp := fun _ _ => hr }, h.2⟩
+
+theorem TH_evFold {evs : List PEv} (h : TH none c) (hc : c.state = .connected) : TH none (evFold c evs) := by
+  have : TP c := ⟨h, by unfold NC; rw [hc]; simp⟩
+  exact (pred_foldl (P := TP) (fun c e hc => TP_parserEvent (e := e) hc) evs this).1
+
+theorem TH_runOnce {rx} (h : TH none c) : TH none (runOnce c rx) := by
+  unfold runOnce
+  cases rx with
+  | data evs =>
+    dsimp only
+    have e : ∀ c4, List.foldl parserEvent c4 evs = evFold c4 evs := fun _ => rfl
+    simp only [e]
+    c4trav
+  | none => dsimp only; c4trav
+  | eof => dsimp only; c4trav
+  | ioerr => dsimp only; c4trav
+
+/-! ### connect -/
+
+/-- with stream management off and no session id, the record does not matter -/
+theorem Tk_smOff {s' : SmState} {hs : Bool} (h : Tk u ut n c) (h1 : s'.enabled = false) (h2 : s'.id = none) :
+    Tk u ut n { c with hasSm := hs, sm := s' } :=
+  ⟨h.le, fun he => (by rw [h1] at he; cases he), h.mt, h.frp, fun hi => (by rw [h2] at hi; cases hi)⟩
+
+/-- `_conn_connect` on a disconnected connection: all system handlers go, a parser reset is requested -/
+theorem Tk_connConnect {d t} (h : Tk none none 1 c) (hw : HW c) (hd : c.state = .disconnected → c.sm.enabled = false) :
+    Tk none none 1 (connConnect c d t).1 := by
+  unfold connConnect
+  refine pred_ite_fst (P := Tk none none 1) (fun _ => h) (fun hs => ?_)
+  have hs : c.state = .disconnected := by simpa using hs
+  have hen := hd hs
+  have hid : c.sm.id = none := by
+    cases hi : c.sm.id with
+    | none => rfl
+    | some i =>
+      have := (h.c1 (by rw [hi]; rfl)).1
+      rw [hen] at this; cases this
+  have er : connReset c = systemDeleteAll
+      { c with compActive := false, queue := [], streamError := none, domain := none, boundJid := none, streamId := none, negotiated := false, secured := false, tlsFailed := false, error := 0, tlsSupport := false, saslSupport := 0, compSupported := false, bindRequired := false, sessionRequired := false } := by
+    unfold connReset; rw [if_neg (by simp [hs])]
+  have c1h : cnt none (connReset c).handlers = 0 := by
+    rw [er, cnt_eq_zero]
+    intro x hx
+    have hx : x ∈ c.handlers.filter (·.user) := hx
+    obtain ⟨hx1, hx2⟩ := List.mem_filter.1 hx
+    rw [tokP_none_iff, hw.ufh x hx1 hx2]; rfl
+  have c1i : cnt none (connReset c).idHandlers = 0 := by
+    rw [er, cnt_eq_zero]
+    intro x hx
+    have hx : x ∈ c.idHandlers.filter (·.user) := hx
+    obtain ⟨hx1, hx2⟩ := List.mem_filter.1 hx
+    rw [tokP_none_iff, hw.ufi x hx1 hx2]; rfl
+  have c1t : ∀ t ∈ (connReset c).timed, t.fn ≠ .missingFeatures := by
+    rw [er]
+    intro x hx
+    have hx : x ∈ c.timed.filter (·.user) := hx
+    obtain ⟨hx1, hx2⟩ := List.mem_filter.1 hx
+    rw [hw.uft x hx1 hx2]; simp
+  have c1e : (connReset c).sm = c.sm := by rw [er]; rfl
+  have c1s : (connReset c).state = .disconnected := by rw [er]; exact hs
+  have frle : ∀ rp p, frN rp p ≤ 1 := by intro rp p; unfold frN; split <;> omega
+  dsimp only
+  refine pred_ite_fst (P := Tk none none 1) (fun _ => ?_) (fun _ => ?_)
+  · refine ⟨?_, fun he => ?_, fun t ht hf => absurd hf (c1t t ht), fun hc => ?_, fun hi => ?_⟩
+    · show cnt none (connReset c).handlers + cnt none (connReset c).idHandlers + _ ≤ 1
+      rw [c1h, c1i]; simpa using frle _ _
+    · have : (connReset c).sm.enabled = true := he
+      rw [c1e, hen] at this; cases this
+    · have : (connReset c).state = .connected := hc
+      rw [c1s] at this; cases this
+    · have : (connReset c).sm.id.isSome = true := hi
+      rw [c1e, hid] at this; cases this
+  · refine ⟨?_, fun he => ?_, fun t ht hf => absurd hf (c1t t ht), fun hc => (by cases hc), fun hi => ?_⟩
+    · show cnt none (connReset c).handlers + cnt none (connReset c).idHandlers + _ ≤ 1
+      rw [c1h, c1i]; simpa using frle _ _
+    · have : (connReset c).sm.enabled = true := he
+      rw [c1e, hen] at this; cases this
+    · have : (connReset c).sm.id.isSome = true := hi
+      rw [c1e, hid] at this; cases this
+
+/-- what connect needs to know: the invariants of ConnC04Inv4.lean and the token -/
+def TI (c : Conn) : Prop := K c ∧ Tk none none 1 c
+
+theorem Tk_connectClient (h : TI c) : Tk none none 1 (connectClient c).1 := by
+  unfold connectClient
+  split
+  · exact h.2
+  · refine pred_ite_fst (P := Tk none none 1) (fun _ => h.2) (fun _ => ?_)
+    dsimp only
+    by_cases hs : c.hasSm = true
+    · rw [if_pos hs]; exact Tk_connConnect h.2 h.1.1 h.1.2.dd
+    · rw [if_neg hs]
+      exact Tk_connConnect (c := { c with hasSm := true, sm := {} }) (Tk_smOff h.2 rfl rfl) h.1.1 (fun _ => rfl)
+
+theorem Tk_connectComponent (h : TI c) : Tk none none 1 (connectComponent c).1 := by
+  unfold connectComponent
+  refine pred_ite_fst (P := Tk none none 1) (fun _ => h.2) (fun _ => ?_)
+  have h1 : Tk none none 1 (setFlags c (getFlags c ||| Gen.flagDisableTls)).1 := Tk_setFlags h.2
+  have h2 : HW (setFlags c (getFlags c ||| Gen.flagDisableTls)).1 := HW_setFlags h.1.1
+  have h3 : B (setFlags c (getFlags c ||| Gen.flagDisableTls)).1 := B_setFlags h.1.2
+  generalize (setFlags c (getFlags c ||| Gen.flagDisableTls)) = p at h1 h2 h3 ⊢
+  obtain ⟨c1, rc⟩ := p
+  dsimp only at h1 h2 h3 ⊢
+  refine pred_ite_fst (P := Tk none none 1) (fun _ => h1) (fun _ => ?_)
+  by_cases hs : c1.hasSm = true
+  · rw [if_pos hs]; exact Tk_connConnect h1 h2 h3.dd
+  · rw [if_neg hs]
+    exact Tk_connConnect (c := { c1 with hasSm := true, sm := {} }) (Tk_smOff h1 rfl rfl) h2 (fun _ => rfl)
+
+theorem Tk_connectRaw (h : TI c) : Tk none none 1 (connectRaw c).1 := by
+  unfold connectRaw
+  refine pred_ite_fst (P := Tk none none 1) (fun _ => h.2) (fun _ => ?_)
+  have h1 : Tk none none 1 (connectClient { c with isRaw := true }).1 :=
+    Tk_connectClient (c := { c with isRaw := true }) h
+  generalize (connectClient { c with isRaw := true }) = p at h1 ⊢
+  obtain ⟨c1, rc⟩ := p
+  dsimp only at h1 ⊢
+  exact pred_ite_fst (P := Tk none none 1) (fun _ => h1) (fun _ => h1)
+
+theorem TI_step (op : Op) (h : TI c) : TI (step c op) := by
+  refine ⟨K_step op h.1, ?_⟩
+  cases op with
+  | connect k =>
+    cases k
+    · exact Tk_connectClient h
+    · exact Tk_connectComponent h
+    · exact Tk_connectRaw h
+  | run rx => exact (TH_runOnce ⟨h.2, h.1.1⟩).1
+  | setTcp f e => exact h.2
+  | setTls sf nf => exact h.2
+  | setSched l d => exact h.2
+  | tick ms => exact h.2
+  | setSmCallback => exact h.2
+  | setFlags f => exact Tk_setFlags h.2
+  | usend it => exact Tk_xmppSend h.2
+  | uraw it => exact Tk_xmppSendRaw h.2
+  | urawstr it => exact Tk_xmppSendRawString h.2
+  | udisc => exact Tk_xmppDisconnect h.2
+  | release => exact Tk_release h.2
+  | addUserHandlers => exact Tk_addTimed' rfl (Tk_addIdHandler' rfl (Tk_addHandler' rfl h.2))
+
+theorem TI_exec (ops : List Op) : ∀ {c}, TI c → TI (exec c ops) := by
+  induction ops with
+  | nil => intro c h; exact h
+  | cons op ops ih => intro c h; exact ih (TI_step op h)
+
+theorem Tk_fresh (jid pass : Option Bytes) (cert : Bool) (flags : Nat) :
+    Tk none none 1 (fresh jid pass cert flags) := by
+  unfold fresh
+  apply Tk_setFlags
+  refine ⟨by simp [cnt, frN], fun he => (by cases he), fun t ht => (by cases ht), fun hs => (by cases hs), fun hi => (by cases hi)⟩
+
+theorem TI_reach (jid pass : Option Bytes) (cert : Bool) (flags : Nat) (ops : List Op) :
+    TI (exec (fresh jid pass cert flags) ops) :=
+  TI_exec ops ⟨⟨HW_fresh jid pass cert flags, B_fresh jid pass cert flags⟩, Tk_fresh jid pass cert flags⟩
 
 end Strophe.Lemmas.ConnC04
